@@ -16,8 +16,8 @@ _QUICK = "{3,0,3,0,10},{2,0,3,0,63},{1,4,3,0,63},{2,0,3,1,35}"
 _THOROUGH = "{3,0,3,0,63},{4,0,3,0,10},{2,7,3,0,63},{2,0,3,1,63},{2,0,4,1,35}"
 reg("C10",
     name="C10_map", src=_SRC, anchor_files=_ANCH,
-    quick=dict(defs=dict(CONFIGS=_QUICK), symx=dict(shards=16, **{"max-wall": 900})),
-    thorough=dict(defs=dict(CONFIGS=_THOROUGH), symx=dict(shards=16, **{"max-wall": 3000, "shard-depth": 8})),
+    quick=dict(defs=dict(CONFIGS=_QUICK), symx=dict(shards=16, **{"max-wall": 900, "query-timeout-ms": 120000})),
+    thorough=dict(defs=dict(CONFIGS=_THOROUGH), symx=dict(shards=16, **{"max-wall": 3000, "shard-depth": 8, "query-timeout-ms": 120000})),
     reach=["end", "key_removed", "key_removed_and_readded_same_cycle", "key_with_state_removed_and_added_later", "key_added_after_a_removal", "three_valid",
            "five_valid", "self_scheduled_wakeup", "removed_with_pending_wakeup", "broadcast_tick_alone", "live_key_without_valid_output", "phantom_key", "late_valid_key_after_map_primed"],
     bounds="TSD<int,TS<int>> source; enumerated configurations {NKEYS, BULK, NCYC, EXTRA_OPS, FMASK = bit set of the mapped functions explored}: quick " + _QUICK + "; thorough " + _THOROUGH + ": in each of "
